@@ -717,6 +717,10 @@ let run_case op t =
         let pr = function Some (c, i) -> join [ "ok"; b2s c; b2s i ] | None -> "skip" in
         (pr (expl_case_m (nat_of_int site) es), pr (expl_case_s (nat_of_int site) es))
       end
+  | "explw" | "explwx" ->
+      (* constructors / conversion functions of the call wrappers: (constructible, implicit) per question *)
+      let pr vs = join ("ok" :: List.concat (List.map (fun v -> let (c, i) = xfacts v in [ b2s c; b2s i ]) vs)) in
+      if op = "explw" then (pr wrapper_ctors_m, pr wrapper_ctors_spec) else (pr wrapper_ctors_etl_m, pr wrapper_ctors_etl_spec)
   | "explelem" ->
       (* the element table itself against the compiler (reference and spec legs na): default, T const& -> T, U const& -> T,
          U&& -> T, and U& -> T (= U const& -> T for every element of the table) *)
